@@ -66,7 +66,7 @@ def witness_cases(prop):
     return out
 
 
-def codec_check(prop, tier, seed, codecs, checks, ops, numerics='0,1', rule=None):
+def codec_check(prop, tier, seed, codecs, checks, ops, numerics='0,1', rule=None, fixtures=None):
     run = pl.Run(prop, tier, seed)
     try:
         cases = generate_cases(run, tier) + witness_cases(prop)
@@ -74,6 +74,9 @@ def codec_check(prop, tier, seed, codecs, checks, ops, numerics='0,1', rule=None
         pl.write_cases(cases, cpath)
         shards = pl.drive(run, 'drive_codec.py', cpath, 'trace',
                           ['--codecs', ','.join(codecs), '--ops', ','.join(ops), '--numerics', numerics])
+        if fixtures and tier in fixtures:
+            files, kexpr = fixtures[tier]
+            shards = shards + pl.observe_tests(run, files, kexpr)
         cfg = ('SPECIFICATION Spec\nCONSTANT Checks = {%s}\nPOSTCONDITION TraceAccepted\nCHECK_DEADLOCK FALSE\n'
                % ', '.join('"%s"' % c for c in checks))
         reports = pl.validate(run, 'Trace_Codec', cfg, shards, what='Trace_Codec %s' % ','.join(checks))
